@@ -4,7 +4,8 @@ import os
 D='/repo/src/verif_hooks'
 CFG={'pathmap':'#[cfg(any(feature = "garde", feature = "validator"))]\n','robotics':'#[cfg(feature = "robotics")]\n'}
 ORDER=['scalars','events']
-mods=sorted(f[:-3] for f in os.listdir(D) if f.endswith('.rs') and f!='mod.rs')
+# serq_ser.rs / serq_quoting.rs are child modules of ser / ser_quoting (included there by #[path])
+mods=sorted(f[:-3] for f in os.listdir(D) if f.endswith('.rs') and f!='mod.rs' and f not in ('serq_ser.rs','serq_quoting.rs'))
 mods=[m for m in ORDER if m in mods]+[m for m in mods if m not in ORDER]
 head='''//! Verification hooks (cargo feature `verif_hooks`, off by default).
 //!
